@@ -4,7 +4,9 @@ import (
 	"crypto/sha1"
 	"fmt"
 	"math/rand"
+	"os"
 	"regexp"
+	"strconv"
 	"strings"
 )
 
@@ -38,6 +40,12 @@ func (o *oracleRun) fail(class, what string, seed int64, input, got, want interf
 }
 
 func caseSeeds(seed int64, n int, prop string) []int64 {
+	// replay of one case of a report: VERIF_ONLY_CASE=<case seed from the replay file>
+	if v := os.Getenv("VERIF_ONLY_CASE"); v != "" {
+		if cs, err := strconv.ParseInt(v, 10, 64); err == nil {
+			return []int64{cs}
+		}
+	}
 	master := rand.New(rand.NewSource(seed*7919 + hashStr(prop)))
 	out := make([]int64, n)
 	for i := range out {
